@@ -101,7 +101,7 @@ def oracle_release_completes(case, lines, runner=None):
     return []
 
 def run(ctx):
-    res = kprops.run_kernel(ctx, 'C06', SPEC, 1500, 40000, oracles=[oracle_capacity_and_idle, oracle_grant_order, oracle_release, oracle_preemption, oracle_release_completes],
+    res = kprops.run_kernel(ctx, 'C06', SPEC, 1500, 40000, attribute=kprops.stop_is_not_the_cause, oracles=[oracle_capacity_and_idle, oracle_grant_order, oracle_release, oracle_preemption, oracle_release_completes],
                              nontrivial=lambda c, lines: any('q[' in l and 'q[]' not in l for l in lines),
                              rule='seeded request/hold/release/cancel/with-exit histories of 2-8 processes on 1-2 resources of the three classes; non-trivial = distinct history in which some request had to queue')
     res['coverage'].update(kbridge.coverage('C06'))
